@@ -55,8 +55,7 @@ def bitsArray (len : Nat) (ws : Array Nat) : Array Bool :=
   Nat.fold len (fun i _ acc => acc.push ((ws[i / 64]?.getD 0).testBit (i % 64))) (Array.mkEmpty len)
 
 /-- the model bit vector a `from_bits` call over that literal produces (push_bit by push_bit) -/
-def bvOfBits (len : Nat) (ws : Array Nat) : BV :=
-  Nat.fold len (fun i _ b => b.pushBit ((ws[i / 64]?.getD 0).testBit (i % 64))) BV.new
+def bvOfBits (len : Nat) (ws : Array Nat) : BV := BV.fromBits (bitsArray len ws).toList
 
 def hexNib (n : Nat) : Char := if n < 10 then Char.ofNat (48 + n) else Char.ofNat (87 + n)
 def natToHex (n : Nat) : String :=
